@@ -34,8 +34,37 @@ func verifC03Eval(src string, td, cd, ei bool) string {
 
 func init() {
 	verifHarnesses["verifC03Eval"] = func() {
-		verifC03Eval(verifSrc, verifBool("td"), verifBool("cd"), verifBool("ei"))
+		verifText = verifC03Eval(verifSrc, verifBool("td"), verifBool("cd"), verifBool("ei"))
 	}
 }
 
-var verifSrc string
+var verifSrc, verifText string
+
+// verifC03Load: the source is the only file of package main in an in-memory tree; Load must return.
+func verifC03Load(src string, td, cd bool) string {
+	vm := New(WithStdout(&verifRecorder{}))
+	var opts []RunOption
+	if td {
+		opts = append(opts, WithTreeDump(&verifRecorder{}))
+	}
+	if cd {
+		opts = append(opts, WithCodeDump(&verifRecorder{}))
+	}
+	err := vm.Load(verifMkFS(map[string]string{"main/main.go": src}), "main", opts...)
+	if err != nil {
+		return err.Error()
+	}
+	for _, name := range []string{"main.f", "main.Main"} {
+		fn := vm.Get(name)
+		if fn.t == TypeFunc && fn.value != nil {
+			vm.Call(name, 0)
+		}
+	}
+	return ""
+}
+
+func init() {
+	verifHarnesses["verifC03Load"] = func() {
+		verifText = verifC03Load(verifSrc, verifBool("td"), verifBool("cd"))
+	}
+}
